@@ -225,6 +225,11 @@ def run(rep, drv):
 
 	# ---- probability vectors that sum to one only within rounding are accepted ----
 	vectors = [[0.7, 0.2, 0.1], [0.1] * 10, [1 / 3] * 3, [0.3, 0.3, 0.4], [0.15, 0.25, 0.6], [1 / 7] * 7, [0.2, 0.2, 0.2, 0.4], [0.5, 0.6]]
+	# ... whichever side of 1 the floating-point sum falls on (a hair above as well as a hair below), in any order of the entries
+	vectors += [[0.05] * 20, [1 / 21] * 21, [0.2, 0.4, 0.3, 0.1], [0.4, 0.2, 0.3, 0.1], [0.1, 0.2, 0.3, 0.4], [1 / 9] * 9, [1 / 6] * 6, [0.1] * 3 + [0.7], [0.7] + [0.1] * 3,
+				[1 / 11] * 11, [0.3, 0.1, 0.6], [0.6, 0.3, 0.1], [1 / 13] * 13, [0.45, 0.55 - 1e-7], [0.45, 0.55 + 1e-7]]
+	rep.count('probability-vectors:sum-above-one-by-rounding', sum(1 for pv_ in vectors if 1 < float(np.sum(pv_)) < 1 + 1e-12))
+	rep.count('probability-vectors:sum-below-one-by-rounding', sum(1 for pv_ in vectors if 1 - 1e-12 < float(np.sum(pv_)) < 1))
 	for pv in vectors:
 		case = {'probs': frs(pv)}
 		rep.case('probability-vectors', case)
